@@ -408,10 +408,30 @@ def sample_measures(T, rp, rng, n):
             scale = float(np.abs(ref).max())
             return 0.0 if scale == 0.0 else float(np.abs(got - ref).max()) / scale
 
+        def call_history(f, x, y):
+            """Two calls in a row on ONE argument object refilled in place (a caller's work buffer): the second result
+            is that of the second contents, and the first result is not changed by the second call (unless it is a
+            view of the caller's own buffer)."""
+            buf = represent(x, "buffer")
+            r1 = f(buf)
+            r1c = np.array(r1, dtype=float, copy=True)
+            buf = represent(y, "buffer")            # the same object, new contents
+            r2 = np.asarray(f(buf), dtype=float)
+            ref2 = np.asarray(f(np.array(y, dtype=float, copy=True)), dtype=float)
+            if r2.shape != ref2.shape or not np.all(np.isfinite(r2)):
+                return float("inf")
+            scale = max(float(np.abs(ref2).max()), float(np.abs(r1c).max()), 1e-300)
+            dev = float(np.abs(r2 - ref2).max()) / scale
+            if isinstance(r1, np.ndarray) and not np.shares_memory(r1, buf):
+                dev = max(dev, float(np.abs(np.asarray(r1, dtype=float) - r1c).max()) / scale)
+            return dev
+
         for k_, (fn, (gen, f)) in enumerate(lin.items()):
             kind = REPR[(t + k_) % len(REPR)]
             x = gen()
             measure(fn, "representation", lambda f=f, x=x, kind=kind: representation(f, x, kind), repr=kind, x=np.asarray(x).tolist())
+            y = gen()
+            measure(fn, "call-history", lambda f=f, x=x, y=y: call_history(f, x, y), x=np.asarray(x).tolist(), y=np.asarray(y).tolist())
         R1, R2 = rot(rng.integers(2**31)), rot(rng.integers(2**31))
         M, M2 = _sym6(rng), _sym6(rng)
         C, C2 = rp.tensor_from_table(M), rp.tensor_from_table(M2)  # elastic tensors built from TLC's table
@@ -420,6 +440,7 @@ def sample_measures(T, rp, rng, n):
         measure("rotate", "homogeneity", lambda: homogeneity(lambda z: T.rotate(z, R1), C, MAGS[(t + 1) % len(MAGS)]), mag=MAGS[(t + 1) % len(MAGS)], M=M.tolist(), R=R1.tolist())
         kr = REPR[t % 3]
         measure("rotate", "representation", lambda: representation(lambda z: T.rotate(z, R1), C, kr), repr=kr, M=M.tolist(), R=R1.tolist())
+        measure("rotate", "call-history", lambda: call_history(lambda z: T.rotate(z, R1), C, C2), M=M.tolist(), M2=M2.tolist(), R=R1.tolist())
         measure("rotate", "representation", lambda: max(representation(lambda q: T.rotate(C, q), R1, k2) for k2 in ("fortran", "strided", "readonly")), repr="rotation-matrix", M=M.tolist(), R=R1.tolist())
         # ---- rotation clauses
         rc = memo(lambda: T.rotate(C, R1))
